@@ -293,7 +293,11 @@ func (p *parser) signMsg() *cose.SignMessage {
 		m.Signatures = []*cose.Signature{}
 		if !p.eat("]") {
 			for {
-				m.Signatures = append(m.Signatures, p.signature())
+				if p.eat("csn") {
+					m.Signatures = append(m.Signatures, nil) // an unset slot
+				} else {
+					m.Signatures = append(m.Signatures, p.signature())
+				}
 				if p.eat("]") {
 					break
 				}
